@@ -10,6 +10,7 @@
        position, and every name field of the RFC 1035 types is a compressing position.
    Writers starting at a non-zero stream offset are tied to this model by the BUILDW correspondence slice and by
    C04_record_writer (the origin adapter makes recorded positions message-relative). Property theorems only. *)
+Require Import SD.Driver SD.TableFinal.
 Require Import SD.Base SD.Codes SD.Header SD.HeaderProofs SD.Name SD.NameProofs SD.RData SD.Spec SD.RDataProofs SD.Packet SD.RoundTrip
   SD.CompressProofs SD.CompressRoundTrip.
 From Coq Require Import ZArith Lia.
@@ -40,6 +41,12 @@ Theorem C07_table_sound_throughout : forall p, wf_packet p ->
   TInv (h ++ bq) t1 /\ TInv (h ++ bq ++ ba) t2 /\ TInv (h ++ bq ++ ba ++ bn) t3 /\ TInv (h ++ bq ++ ba ++ bn ++ bo ++ bx) t4.
 Proof. exact compressed_tables_sound. Qed.
 Print Assumptions C07_table_sound_throughout.
+(* in particular the table the writer ends with - the one the TABLE cases print and compare with the implementation's, and on
+   which the direct oracle checks this very sentence: every entry names labels that begin at that offset (<= 16383) of the message *)
+Theorem C07_final_table : forall p, wf_packet p -> TInv (encc_packet p) (encc_table p).
+Proof. exact final_table_sound. Qed.
+Check C07_final_table : forall p, wf_packet p -> TInv (encc_packet p) (encc_table p).
+Print Assumptions C07_final_table.
 
 Theorem C07_forbidden_written_in_full : forall m vs t off, forbids_compression m = true ->
   wc_rdata (RD m vs) t off = (enc_rdata (RD m vs), t).
